@@ -444,7 +444,7 @@ def main(tier):
     ev.assumptions = ["Python list/dict/str models of std::vector<Boxed_Value>, std::map<std::string,Boxed_Value>, std::string written from the C++ standard's "
                       "container semantics; resize(n) default-constructs undefined values; map operator[] inserts an undefined value",
                       "range views are used only while their container is not structurally modified (modification during iteration is outside the property)"]
-    n = 640 if tier == "quick" else 60000
+    n = 640 if tier == "quick" else 12000
     failures = hyp.run("c12", ev, tier, n)
     confirmed = hyp.confirm("c12", failures, PID)
     for p, what in confirmed:
